@@ -27,7 +27,7 @@ def fork_bool_return(ctx, p, st):
     comparison (or not / and / or of comparisons) are split on that value, so that decision tables see the two
     outcomes whichever way the function spells them."""
     eng = S(ctx)
-    if p.exit[0] != "return" or not _boolish(st.ret) or (st.ret[0] == "un" and not _boolish(st.ret[2])):
+    if p.exit[0] != "return" or not _boolish(st.ret) or (st.ret[0] == "un" and not _boolish(st.ret[2]) and st.ret[2][0] not in ("p", "slice")):
         return [st]
     out = []
     node = p.exit[1].value if hasattr(p.exit[1], "value") else None
@@ -38,6 +38,29 @@ def fork_bool_return(ctx, p, st):
             s2.ret = ("c", pol)
             out.append(s2)
     return out or [st]
+
+
+def ret_term(st):
+    """The value a return path hands back, with `if x is None: return None` read as `return x`: a constant returned
+    under the condition that some term is (equal to) that constant is that term."""
+    r = st.ret
+    if r is None or r[0] != "c" or not (r[1] is None or isinstance(r[1], (bool, bytes))):
+        return r
+    for t, pol, _ in reversed(st.log):
+        rn = rel_norm(t, pol)
+        if rn is None:
+            continue
+        op, a, b = rn
+        if op in ("is", "==") and b == r and a[0] != "c" and (op == "is" or not isinstance(r[1], bool)):
+            return a
+        if op in ("is", "==") and a == r and b[0] != "c" and (op == "is" or not isinstance(r[1], bool)):
+            return b
+    return r
+
+
+def rets(ctx, f, exits=("return",), **kw):
+    """set of (canonical) returned terms over the return paths of f"""
+    return {ret_term(st) for p, st in states(ctx, f, **kw) if p.exit[0] in exits}
 
 
 def states(ctx, f, split=None, unroll=None, until=None, fork_returns=False):
